@@ -23,10 +23,17 @@ What is proved.
   later addition at the leftmost remaining sentinel), consuming exactly the output — unless the
   decoder's allocator hits a limit.  *Partial* because validity of the real `find_path` is a
   hypothesis, not a theorem.
-* `replay_checked_valid`, `validate_sound`: the correspondence stream discharges that hypothesis *per
-  run*: `validate` re-runs the model with the policy "what the recorded bytes show, if it is a valid
-  path"; that policy is valid by construction, so whenever `validate` accepts a recorded run of the
-  real serializer, `complete_decodes_partial` applies to those very bytes.
+* `replay_checked_valid`, `validate_sound`: `validate` re-runs the protocol model on recorded bytes of
+  the real serializer with the policy "what the recorded bytes show, if it is a valid path"; that policy
+  is valid by construction, so whenever `validate` accepts a recorded run, `complete_decodes_partial`
+  applies to those very bytes (the `INC` handler runs it on every undo-free history that decodes).
+* Beside the protocol model there is a **faithful executable model** of `TreeCache` + `Serializer`
+  (`ClvmModel/Serde/TreeCache.lean`: `update`, `node_map` keyed by node identity, entries, parent links
+  with eviction, `on_stack`, `serialized_nodes`, checkpoints incl. `sentinel_entry`, `restore`, the
+  lock-step search of `find_path` with its tie-breaking, `PathBuilder`); it *computes* the crate's bytes,
+  the defective ones of L, M, N included, and the `INC` stream compares them exactly.  **No theorem is
+  proved about the faithful model** (in particular not "its `find_path` is a valid policy outside the
+  regions of L, M, N", which would discharge `hvalid` there): its tie to the crate is the stream.
 * The salt (`TreeCache::salt`, `RandomState`) does not occur in the model; run-to-run equality of the
   real serializer's bytes is checked by the oracle (`inc_salt_independent`) and by the implementation
   side of the stream (a re-run with a new salt must reproduce the recorded bytes).
